@@ -336,10 +336,14 @@ def Policy.isBB : Policy S → Bool
   | .abb _ => true
   | _ => false
 
+/-- the argument `AcceleratedPGM.step` passes to `step_size.update`:
+    `self.x` for the Barzilai-Borwein classes, `self.v` otherwise -/
+def apgmPoint (pol : Policy S) (s : PGMState V S) : V := if pol.isBB then s.x else s.v
+
 /-- `AcceleratedPGM.step` -/
 def apgmStep (env : Env V S) (pol : Policy S) (s : PGMState V S) : Option (PGMState V S) :=
   let xold := s.x
-  let point := if pol.isBB then s.x else s.v
+  let point := apgmPoint pol s
   match update env pol s.x s.L s.ps point with
   | none => none
   | some (L, ps) =>
